@@ -200,6 +200,58 @@ Theorem C19_caller_complete_holds_outside :
 Proof. exact caller_complete. Qed.
 Print Assumptions C19_caller_complete_holds_outside.
 
+(* 10. launching: launchTrieSync -> trieFetcher -> trieSync.run/loop -> done/Wait.
+   A task is queued until the fetcher takes it (LHandover) or the downloader quits
+   (LQuit: done with errCancelTrieFetch); the running loop takes dispatcher / loop
+   events, sees d.cancelCh (errCanceled) or s.cancel (errCancelTrieFetch), or
+   evaluates its guard.
+   10a. done with err == nil (what FetchVldTrie, fetchStakingTrie, stateSync.Wait()
+   and the callers selecting on sync.done read as success) happens only if the task
+   WAS handed to the fetcher and the loop's guard found Pending() = 0; then the
+   membatch is flushed and the database holds the closure of the root (or a
+   collision is exhibited).  In particular a task interrupted while queued can
+   never report completion. *)
+Theorem C19_launch_done_only_after_loop :
+  forall H dec blen ideal cb root, no_zero H -> raw_node_separate H dec cb -> storage_account_separate H dec cb ->
+  forall db evs m, OC H dec cb db ->
+  lrun H dec blen ideal root cb db evs = LDone None m ->
+  In LHandover evs /\
+  pending (c_sched (m_c m)) = 0 /\ s_mem (c_sched (m_c m)) = [] /\
+  (root = empty_root \/ Complete dec cb (s_db (c_sched (m_c m))) root \/ collision_in H (s_db (c_sched (m_c m)))).
+Proof. exact launch_done_nil. Qed.
+Print Assumptions C19_launch_done_only_after_loop.
+
+(* 10b. interruption => error or not done: without a hand-over the task is still
+   queued or failed; a cancel / stop seen by the running loop and a quit seen while
+   queued end it with an error; done states are final *)
+Theorem C19_launch_not_done_without_handover :
+  forall H dec blen ideal cb root db evs, ~ In LHandover evs ->
+  lrun H dec blen ideal root cb db evs = LQueued \/ lrun H dec blen ideal root cb db evs = LFailedLaunch.
+Proof. exact launch_needs_handover. Qed.
+Print Assumptions C19_launch_not_done_without_handover.
+
+Theorem C19_launch_interrupted_is_error :
+  forall H dec blen ideal cb root db m, running m = true ->
+  lstep H dec blen ideal root cb db (LRunning m) LCancelSeen = LDone (Some LCanceled) (mstep H dec blen ideal m ECancel) /\
+  lstep H dec blen ideal root cb db (LRunning m) LStopSeen = LDone (Some LCancelFetch) (mstep H dec blen ideal m ECancel) /\
+  lstep H dec blen ideal root cb db LQueued LQuit = LFailedLaunch.
+Proof. exact launch_interrupted. Qed.
+Print Assumptions C19_launch_interrupted_is_error.
+
+Theorem C19_launch_done_final :
+  forall H dec blen ideal cb root db e m ev, lstep H dec blen ideal root cb db (LDone e m) ev = LDone e m.
+Proof. exact launch_done_final. Qed.
+Print Assumptions C19_launch_done_final.
+
+(* 10c. the launch machine the harness checks observed outcomes against (astep,
+   without the contents of the loop) is the projection of the full one *)
+Theorem C19_launch_refines :
+  forall H dec blen ideal cb root db st e,
+  abs_state (lstep H dec blen ideal root cb db st e) =
+  match abs_event st e with Some a => astep (abs_state st) a | None => abs_state st end.
+Proof. exact launch_refines. Qed.
+Print Assumptions C19_launch_refines.
+
 (* ---- non-vacuity ------------------------------------------------------------------- *)
 
 (* a world that meets every hypothesis, with a history containing an unrequested
@@ -249,3 +301,18 @@ Example C19_nonvacuous_caller :
   running m7 = true /\ c_tasks (m_c m7) = [(13, []); (12, [])] /\ m_active m7 = [].
 Proof. exact g_caller_run. Qed.
 Print Assumptions C19_nonvacuous_caller.
+
+(* launch histories in the same world: completion through hand-over and guard; a
+   cancel after seven loop events (error, three requests pending, nothing on disk);
+   quit while queued; a cancel while queued does not end the task *)
+Example C19_nonvacuous_launch :
+  let full := LHandover :: map LLoop gevs ++ [LGuard; LCancelSeen] in
+  let cut := LHandover :: map LLoop (firstn 7 gevs) ++ [LGuard; LCancelSeen; LGuard] in
+  (exists m, lrun wH gdec g_blen g_ideal 11 true [] full = LDone None m /\
+             s_db (c_sched (m_c m)) = [(11, 1); (13, 3); (14, 4); (15, 5); (12, 2); (16, 6)]) /\
+  (exists m, lrun wH gdec g_blen g_ideal 11 true [] cut = LDone (Some LCanceled) m /\
+             pending (c_sched (m_c m)) = 3 /\ s_db (c_sched (m_c m)) = []) /\
+  lrun wH gdec g_blen g_ideal 11 true [] [LQuit; LHandover; LGuard] = LFailedLaunch /\
+  lrun wH gdec g_blen g_ideal 11 true [] [LCancelSeen; LGuard] = LQueued.
+Proof. exact g_launch_run. Qed.
+Print Assumptions C19_nonvacuous_launch.
